@@ -180,8 +180,14 @@ class Report:
         unrepro = [v for v in self.violations if v.reproduced is False]
         for k, v in self.known_hits:
             print(f'KNOWN-FINDING: property={self.prop} {k.get("id", "")} {k.get("text", v.text)}')
-        for v in real:
-            print(f'VIOLATION property={self.prop} replay={v.replay_path or "none"}')
+        for i, v in enumerate(real):
+            if not v.replay_path:
+                # no executable replay for this class of counterexample: the solver witness is kept as a file
+                os.makedirs(VERIF + '/replay', exist_ok=True)
+                v.replay_path = f'{VERIF}/replay/{self.prop.lower()}_{i}.witness.txt'
+                with open(v.replay_path, 'w') as f:
+                    f.write(f'property {self.prop}\nviolation {v.key}\n{v.text}\n\nsolver witness (symbolic inputs of the failing path):\n{v.witness or "(in the text above)"}\n')
+            print(f'VIOLATION property={self.prop} replay={v.replay_path}')
             print(f'  {v.key}: {v.text}')
         if real:
             status = 1
